@@ -8,8 +8,8 @@ its target classified
     RCaller  a parameter, or an alias/view of one (p, p[i], p[:, j], np.asarray(p), loop variable over p,
              zip/enumerate of p), or any chain through `.features` (Node.features is a view of the caller's row)
 
-`SupervisedOPF.learn` and `.prune` are excluded: exchanging rows of the caller's arrays is their documented
-job (property C17), and C07 is about distance evaluation, fit and predict.
+`SupervisedOPF.learn` is excluded: exchanging rows between the caller's training and validation arrays is its
+documented job (property C17). `prune` is included: it only drops samples and must build its reduced set afresh.
 
 Emits Gen/Stores_gen.v:  stores : list store_site.
 """
@@ -29,7 +29,7 @@ FILES = [
     "opfython/math/general.py",
     "opfython/math/distance.py",
 ]
-EXCLUDED_FUNCS = {("opfython/models/supervised.py", "learn"), ("opfython/models/supervised.py", "prune")}
+EXCLUDED_FUNCS = {("opfython/models/supervised.py", "learn")}
 MUTATING_METHODS = {"fill", "sort", "append", "insert", "resize", "put", "extend", "pop", "remove", "clear",
                     "itemset", "partition", "setfield", "byteswap", "reverse", "update", "setflags"}
 MUTATING_FUNCS = {"copyto", "put", "place", "putmask", "fill_diagonal", "shuffle"}
